@@ -515,3 +515,21 @@ from contracts import C02 as _c02   # noqa: E402
 class DescriptionUpdateListsEveryContextState(_c02.UpdateCorrespondingContextStates):
     id = 'C01.description_update_lists_every_context_state'
     prop = 'C01'
+
+
+# --------------------------------------------------------------------------------------------------------------------
+# the third mechanism of the property - initial GetMdib with buffering of early notifications - is proved under C06
+# (reload_all, _pre_check_report_ok) and re-checked here: a report delivered while the consumer loads its MDIB is either
+# appended to the buffer before the replay (both happen inside the buffer lock) or sees the state `initialized`
+def _rereg_c01(base, new_id, doc):
+    cls = type('C01_' + base.__name__, (base,), {'id': new_id, 'prop': 'C01', 'doc': doc})
+    register(cls)
+
+
+_rereg_c01(_c06.ReloadAll, 'C01.initial_load_loses_no_report',
+           'reload_all (C06.reload_all re-checked): buffering starts before the tables are cleared, every buffered report '
+           'that is newer than the loaded MDIB is replayed in order, the buffer is emptied and the state becomes '
+           '`initialized` as the last step INSIDE the buffer lock - no report can fall between replay and switch')
+_rereg_c01(_c06.PreCheck, 'C01.early_reports_are_buffered_under_the_buffer_lock',
+           '_pre_check_report_ok (C06.pre_check_report re-checked): while initializing a report is appended to the buffer '
+           'only after the state was read again inside the buffer lock; buffered xor processed')
